@@ -186,7 +186,7 @@ pub fn case_strategy() -> BoxedStrategy<Case> {
                 }),
                 c02::buf_pick(),
                 (gen::chunking(), gen::chunking()),
-                c02::schedule(),
+                (c02::schedule(), proptest::collection::vec((any::<u16>(), Just(Act::ForceAdvance)), 0..3)).prop_map(|(mut s, extra)| { for (at, a) in extra { let k = idx(at, s.len() + 1); s.insert(k, a); } s }),
                 prop_oneof![Just(1u32), Just(10), 1u32..100000, Just(u32::MAX)],
             )
         })
